@@ -38,6 +38,11 @@ def run(rep, tier, seed):
         if tier == 'quick':
             chk.check('chk', gen_consts(2, 2), invariants=INVS)
             chk.generate('gen', gen_consts(1, 2), cassettes=('memory',), n_conc=1, sample=2500, cap=4500)
+            chk.generate('failthen', gen_consts(1, 3, MaxPSteps=2, InCalls=[('ia1', 1), ('ia1', 2)], InFaults=['none'],
+                                                Bodies=['plain'], Ctl=[], Classes=[K('K1')], SaveFails=[False],
+                                                Ends=['ret'], Modes=['free'], PlayFaults=[], Draws=['low'],
+                                                OutResults=[('val', 'v1')]),
+                         cassettes=('memory',), n_conc=1, sample=2500, cap=4000)
             chk.generate('gen3runs', gen_consts(1, 3, InCalls=[('ia2', 1)], InFaults=['none', 'prepFail'],
                                                 Bodies=['plain', 'interrupt', 'forces'], Ctl=['discard'],
                                                 Classes=[K('K2', rate='frac')], SaveFails=[False], Ends=['ret'],
